@@ -168,6 +168,20 @@ func c19Run(env *core.Env, idx int) core.CaseResult {
 		}
 		r.expanded = true
 		_ = enc.Encode(map[string]interface{}{"id": id, "stage": "expanded", "doc": json.RawMessage(ex)})
+		// one more expansion per document under other options: a successful expansion is one whatever the options
+		oname := []string{"skip-schemas", "absolute-circular-ref", "continue-on-error", "skip-schemas+absolute-circular-ref"}[k%4]
+		sw3 := new(spec.Swagger)
+		_ = json.Unmarshal(text, sw3)
+		o3 := &spec.ExpandOptions{RelativeBase: c19Root, PathLoader: loader, SkipSchemas: k%4 == 0 || k%4 == 3, AbsoluteCircularRef: k%4 == 1 || k%4 == 3, ContinueOnError: k%4 == 2}
+		err, pan = guard(func() error { return spec.ExpandSpec(sw3, o3) })
+		res.Evals++
+		if err != nil || pan != "" {
+			res.Count("expansion-not-successful("+oname+")", 1)
+			continue
+		}
+		if ex3, err := json.Marshal(sw3); err == nil {
+			_ = enc.Encode(map[string]interface{}{"id": id, "stage": "expanded(" + oname + ")", "doc": json.RawMessage(ex3)})
+		}
 	}
 	_ = bw.Flush()
 	f.Close()
@@ -225,7 +239,7 @@ func c19Run(env *core.Env, idx int) core.CaseResult {
 		if e, bad := encodeErr[id]; bad {
 			res.Violate("valid document cannot be encoded again: "+errClass(fmt.Errorf("%s", e)), e, map[string]interface{}{"input": json.RawMessage(r.text)})
 		}
-		for _, stage := range []string{"roundtrip", "roundtrip-into-a-used-value", "expanded"} {
+		for _, stage := range []string{"roundtrip", "roundtrip-into-a-used-value", "expanded", "expanded(skip-schemas)", "expanded(absolute-circular-ref)", "expanded(continue-on-error)", "expanded(skip-schemas+absolute-circular-ref)"} {
 			v, ok := verdicts[id][stage]
 			if !ok {
 				continue
